@@ -17,6 +17,6 @@ Proof. apply (tick_local bname store async_store). apply run_good. Qed.
 Theorem permitted_subscribe_ok q c s : In c (subchans (conns s q)) -> copen (conns s q) = true ->
   on_subscribe q c s = Ok (sub q c s).
 Proof. intros Hc Ho. unfold on_subscribe. apply memc_In in Hc. rewrite Hc, Ho. reflexivity. Qed.
-Theorem good_always h : Good store async_store (run h).
+Theorem good_always h : Good (srow store) async_store (run h).
 Proof. apply run_good. Qed.
 End P2.
